@@ -364,7 +364,7 @@ def verify_function(eng):
             saved = st2.env
             st2.env = dict(saved)
             st2.env["result"] = res
-            for i, e in enumerate(getattr(c, "lemmas", [])):
+            for i, e in enumerate(getattr(c, "exit_lemmas", [])):
                 # exit lemma: proved from the path's hypotheses like a postcondition, then available to the clauses after it
                 goal = z3.simplify(eng.spec_bool(e, st2))
                 eng.obls.append(Obligation(f"lemma[{i}]", "post", st2.hyps(), goal, getattr(out, "lineno", fn.lineno), e))
